@@ -394,6 +394,19 @@ func (d *Data) blockChangesExtents(extents *dvid.Extents, bx, by, bz int32) bool
 	return extents.AdjustPoints(start, end)
 }
 
+// checkBlockSize returns an error if a received block does not have the block size of the data instance,
+// since all reads assume that every stored block has that size.
+func (d *Data) checkBlockSize(block *labels.Block, bcoord dvid.IZYXString) error {
+	blockSize, ok := d.BlockSize().(dvid.Point3d)
+	if !ok {
+		return fmt.Errorf("block size for data %q should be 3d, not: %s", d.DataName(), d.BlockSize())
+	}
+	if !block.Size.Equals(blockSize) {
+		return fmt.Errorf("block %s has size %s, not the block size %s of data %q", bcoord, block.Size, blockSize, d.DataName())
+	}
+	return nil
+}
+
 // storeBlocks reads blocks from io.ReadCloser and puts them in store, handling metadata bookkeeping
 // unlike ingestBlocks function.
 func (d *Data) storeBlocks(ctx *datastore.VersionedCtx, r io.ReadCloser, scale uint8, downscale bool, compression string, indexing bool) error {
@@ -498,6 +511,9 @@ func (d *Data) storeBlocks(ctx *datastore.VersionedCtx, r io.ReadCloser, scale u
 			return err
 		}
 		bcoord := dvid.ChunkPoint3d{bx, by, bz}.ToIZYXString()
+		if err := d.checkBlockSize(block, bcoord); err != nil {
+			return err
+		}
 		tk := NewBlockTKeyByCoord(scale, bcoord)
 		if scale == 0 {
 			if mod := d.blockChangesExtents(&extents, bx, by, bz); mod {
@@ -570,7 +586,7 @@ func (d *Data) ingestBlocks(ctx *datastore.VersionedCtx, r io.ReadCloser, scale 
 
 	var numBlocks int
 	for {
-		_, compressed, bx, by, bz, err := readStreamedBlock(r, scale)
+		block, compressed, bx, by, bz, err := readStreamedBlock(r, scale)
 		if err == io.EOF {
 			break
 		}
@@ -578,6 +594,9 @@ func (d *Data) ingestBlocks(ctx *datastore.VersionedCtx, r io.ReadCloser, scale 
 			return err
 		}
 		bcoord := dvid.ChunkPoint3d{bx, by, bz}.ToIZYXString()
+		if err := d.checkBlockSize(block, bcoord); err != nil {
+			return err
+		}
 		tk := NewBlockTKeyByCoord(scale, bcoord)
 		serialization, err := dvid.SerializePrecompressedData(compressed, d.Compression(), d.Checksum())
 		if err != nil {
